@@ -84,6 +84,8 @@ pub enum ParseWarningKind {
     HeaderIndexIsTooSmall,
     /// The lig table is too big (todo: larger than what?)
     LigTableIsTooBig,
+    /// A STOP or SKIP element does not directly follow a LIG or KRN element.
+    StopOrSkipWithoutStep { is_stop: bool },
     /// The lig/kern program contains a cycle
     CycleInLigKernProgram(InfiniteLoopError),
     /// The next larger program contains a cycle
@@ -354,6 +356,13 @@ impl ParseWarningKind {
                 action: "this instruction will be ignored",
                 pltotf_message: "Sorry, LIGTABLE too long for me to handle".into(),
                 pltotf_section: (101, 1),
+            },
+            StopOrSkipWithoutStep { is_stop } => Data {
+                rule: "a STOP or SKIP element must directly follow a LIG or KRN element".into(),
+                problem: "there is no lig/kern instruction for this element to modify".into(),
+                action: "this element will be ignored",
+                pltotf_message: if is_stop { "STOP must follow LIG or KRN".into() } else { "SKIP must follow LIG or KRN".into() },
+                pltotf_section: if is_stop { (122, 1) } else { (121, 1) },
             },
             NotReallySevenBitSafe => Data {
                 rule: "a font declared seven-bit-safe cannot reach characters >= 128 from characters < 128".into(),
